@@ -353,6 +353,164 @@ def term_decode(ps):
     return [st["fg"], st["bg"], st["bold"], st["italic"], st["underline"], st["blink"], st["reverse"], st["strike"]]
 
 
+def sgr_apply(st, ps):
+    """Apply one SGR parameter list to the pen st (same reading as term_decode, from the current pen)."""
+    fg, bg, bold, it, ul, bl, rv, sk = st
+    cur = {"fg": list(fg), "bg": list(bg), "bold": bold, "italic": it, "underline": ul, "blink": bl, "reverse": rv, "strike": sk}
+    i = 0
+    ps = list(ps) or [0]
+    while i < len(ps):
+        p = ps[i]
+        i += 1
+        if p in (38, 48):
+            key = "fg" if p == 38 else "bg"
+            if i < len(ps) and ps[i] == 5 and i + 1 < len(ps):
+                if 0 <= ps[i + 1] <= 255:
+                    cur[key] = [1, ps[i + 1]]
+                i += 2
+            elif i < len(ps) and ps[i] == 2 and i + 3 < len(ps):
+                if all(0 <= v <= 255 for v in ps[i + 1:i + 4]):
+                    cur[key] = [2] + ps[i + 1:i + 4]
+                i += 4
+            else:
+                break
+            continue
+        if p == 0:
+            cur = {"fg": [0], "bg": [0], "bold": 0, "italic": 0, "underline": 0, "blink": 0, "reverse": 0, "strike": 0}
+        elif p == 1:
+            cur["bold"] = 1
+        elif p == 3:
+            cur["italic"] = 1
+        elif p == 4:
+            cur["underline"] = 1
+        elif p in (5, 6):
+            cur["blink"] = 1
+        elif p == 7:
+            cur["reverse"] = 1
+        elif p == 9:
+            cur["strike"] = 1
+        elif p == 22:
+            cur["bold"] = 0
+        elif p == 23:
+            cur["italic"] = 0
+        elif p == 24:
+            cur["underline"] = 0
+        elif p == 25:
+            cur["blink"] = 0
+        elif p == 27:
+            cur["reverse"] = 0
+        elif p == 29:
+            cur["strike"] = 0
+        elif 30 <= p <= 37:
+            cur["fg"] = [1, p - 30]
+        elif p == 39:
+            cur["fg"] = [0]
+        elif 40 <= p <= 47:
+            cur["bg"] = [1, p - 40]
+        elif p == 49:
+            cur["bg"] = [0]
+        elif 90 <= p <= 97:
+            cur["fg"] = [1, p - 82]
+        elif 100 <= p <= 107:
+            cur["bg"] = [1, p - 92]
+    return [cur["fg"], cur["bg"], cur["bold"], cur["italic"], cur["underline"], cur["blink"], cur["reverse"], cur["strike"]]
+
+
+RESET_PEN = [[0], [0], 0, 0, 0, 0, 0, 0]
+
+
+class FrameTerm:
+    """Just the part of an xterm that one urwid frame in UTF-8 uses: cursor addressing, SGR, insert mode,
+    erase to end of line with the current background, backspace.  Cells: [char or "" for the right half of a
+    double-width character, pen, erased?]."""
+
+    def __init__(self, cols, rows):
+        self.cols, self.rows = cols, rows
+        self.pen = list(RESET_PEN)
+        self.grid = [[[" ", list(RESET_PEN), True] for _ in range(cols)] for _ in range(rows)]
+        self.x = self.y = 0
+        self.insert = False
+        self.problems = []
+
+    @staticmethod
+    def width(ch):
+        import unicodedata
+        if unicodedata.category(ch) in ("Mn", "Me", "Cf"):
+            return 0
+        return 2 if unicodedata.east_asian_width(ch) in "WF" else 1
+
+    def feed(self, data):
+        pos, n = 0, len(data)
+        csi = re.compile(r"\x1b\[([?0-9;]*)([A-Za-z@])")
+        while pos < n:
+            ch = data[pos]
+            if ch == "\x1b":
+                m = csi.match(data, pos)
+                if m:
+                    self.csi(m.group(1), m.group(2))
+                    pos = m.end()
+                    continue
+                if data[pos:pos + 2] in ("\x1b)", "\x1b("):
+                    pos += 3
+                    continue
+                self.problems.append("unknown escape %r" % data[pos:pos + 6])
+                return
+            pos += 1
+            if ch in "\x0e\x0f":
+                continue
+            if ch == "\x08":
+                self.x = max(0, min(self.x, self.cols - 1) - 1)
+            elif ch == "\r":
+                self.x = 0
+            elif ch == "\n":
+                self.y = min(self.rows - 1, self.y + 1)
+            elif ord(ch) >= 32:
+                self.put(ch)
+
+    def put(self, ch):
+        w = self.width(ch)
+        if w == 0:
+            return
+        if self.x + w > self.cols:
+            self.problems.append("write beyond the right margin at row %d" % self.y)
+            return
+        row = self.grid[self.y]
+        cells = [[ch, list(self.pen), False]] + [["", list(self.pen), False] for _ in range(w - 1)]
+        if self.insert:
+            row[self.x:self.x] = cells
+            del row[self.cols:]
+        else:
+            row[self.x:self.x + w] = cells
+        self.x += w
+
+    def csi(self, args, final):
+        if args.startswith("?"):
+            return
+        nums = [int(v) if v else 0 for v in args.split(";")] if args else []
+        if final == "H":
+            self.y = max(0, min(self.rows - 1, (nums[0] if nums else 1) - 1))
+            self.x = max(0, min(self.cols - 1, (nums[1] if len(nums) > 1 else 1) - 1))
+        elif final == "K":
+            if not nums or nums[0] == 0:
+                pen = [[0], list(self.pen[1]), 0, 0, 0, 0, 0, 0]        # back colour erase
+                for i in range(min(self.x, self.cols), self.cols):
+                    self.grid[self.y][i] = [" ", list(pen), True]
+        elif final == "m":
+            self.pen = sgr_apply(self.pen, nums)
+        elif final == "h" and nums == [4]:
+            self.insert = True
+        elif final == "l" and nums == [4]:
+            self.insert = False
+        elif final == "C":
+            self.x = min(self.cols - 1, self.x + max(1, nums[0] if nums else 1))
+        elif final == "A":
+            self.y = max(0, self.y - max(1, nums[0] if nums else 1))
+        elif final == "B":
+            self.y = min(self.rows - 1, self.y + max(1, nums[0] if nums else 1))
+        elif final == "D":
+            self.x = max(0, self.x - max(1, nums[0] if nums else 1))
+
+
 def spec_fields(a):
     return [int(a.foreground_true), int(a.foreground_high), int(a.foreground_basic), a.foreground_number,
             int(a.background_true), int(a.background_high), int(a.background_basic), a.background_number,
@@ -601,6 +759,86 @@ class C17(core.Check):
             except Exception as e:
                 self._stash = {}
                 return {"err": errnorm(errname(e))}
+
+    # ---- re-tagging an existing Text while its canvases are alive
+    def impl_retag(self, case):
+        import urwid
+        with Enc(case["enc"]):
+            try:
+                t = urwid.Text(build_markup(case["steps"][0]), align=case["align"], wrap=case["wrap"])
+                if case["wrapped"] == 0:
+                    top = t
+                elif case["wrapped"] == 1:
+                    top = urwid.AttrMap(t, {})
+                else:
+                    top = urwid.AttrMap(urwid.Pile([urwid.Columns([t]), urwid.Text("-")]), {})
+                alive = []             # the screen / MainLoop keeps the last frames alive like this
+                canv = top.render((case["w"],))
+                alive.append(canv)
+                for m in case["steps"][1:]:
+                    t.set_text(build_markup(m))
+                    canv = top.render((case["w"],))
+                    alive.append(canv)
+                nrows = t.rows((case["w"],))
+                rows = content_rows(canv)[:nrows]
+                trans = t.get_line_translation(case["w"])
+                self._stash = {"case": core.canon(case), "rows": rows, "ls": trans, "text": t.text}
+                return {"rows": [rle_merge(a) for a, _ in rows]}
+            except Exception as e:
+                self._stash = {}
+                return {"err": errnorm(errname(e))}
+
+    # ---- whole frames through the raw display
+    FRAME_NAMES = 6
+
+    def frame_expect(self, case):
+        """From the markup alone: per row the cells (character or "" for a right half, attribute id)."""
+        from urwid import str_util
+        grid = []
+        for m in case["lines"]:
+            fl = flatten(m)
+            cells = []
+            for (_, code), tag in zip(*fl):
+                w = FrameTerm.width(chr(code))
+                if w == 0:
+                    continue
+                cells.append((chr(code), tag))
+                cells += [("", tag)] * (w - 1)
+            cells += [(" ", None)] * (case["cols"] - len(cells))
+            grid.append(cells[:case["cols"]])
+        return grid
+
+    def impl_frame(self, case):
+        import urwid
+        with Enc("utf-8"):
+            s = make_screen(case["bib"], False)
+            s.back_color_erase = bool(case["bce"])
+            if case["depth"] != 16:
+                s.set_terminal_properties(colors=case["depth"])
+            for nm, fg, bg in case["pal"]:
+                if case["depth"] == 16:
+                    s.register_palette_entry(name_of(nm), fg, bg)
+                else:
+                    s.register_palette_entry(name_of(nm), "default", "default", None, fg, bg)
+            try:
+                pile = urwid.Pile([urwid.Text(build_markup(m), wrap="clip") for m in case["lines"]])
+                canv = pile.render((case["cols"],))
+                if canv.rows() != len(case["lines"]):
+                    return {"err": "rows"}
+                s._started = True
+                s.clear()
+                s.out.seek(0)
+                s.out.truncate()
+                s.draw_screen((case["cols"], len(case["lines"])), canv)
+                data = s.out.getvalue()
+            except Exception as e:
+                self._stash = {}
+                return {"err": "unexpected:" + type(e).__name__}
+            term = FrameTerm(case["cols"], len(case["lines"]))
+            term.feed(data)
+            self._stash = {"case": core.canon(case), "term": term}
+            return {"grid": [[[ord(c[0]) if c[0] else 0] + [c[1][0], c[1][1]] + c[1][2:] + [int(c[2])] for c in row]
+                             for row in term.grid], "problems": term.problems}
 
     # ---- clipping of rendered rows
     def clip_regions(self, case):
@@ -880,6 +1118,12 @@ class C17(core.Check):
                 for a, n in case["attr"]:
                     out += oz(a) + [n]
                 return out + enc_layout(layout_py(case["ls"]))
+        if k == "frame":
+            return None                  # draw_screen is not inside this model: judged by the oracle
+        if k == "retag":
+            pseudo = {"kind": "text", "m": case["steps"][-1], "w": case["w"], "align": case["align"],
+                      "wrap": case["wrap"], "enc": case["enc"]}
+            return self.encode(pseudo)
         if k == "clip":
             import urwid
             with Enc(case["enc"]):
@@ -1049,6 +1293,9 @@ class C17(core.Check):
                 for _ in range(n):
                     rows.append(nrle())
                 return {"rows": rows}
+            if k == "retag":
+                n = nxt()
+                return {"rows": [rle_merge(rle_expand(nrle())) for _ in range(n)]}
             if k == "clip":
                 clips = []
                 st = self._stash if self._stash.get("case") == core.canon(case) else None
@@ -1159,6 +1406,14 @@ class C17(core.Check):
             if not msgs and k == "text":
                 msgs = self.oracle_window(case, st)
             return msgs
+        if k == "retag" and st is not None:
+            pseudo = {"kind": "text", "m": case["steps"][-1], "w": case["w"], "align": case["align"],
+                      "wrap": case["wrap"], "enc": case["enc"]}
+            msgs = self.oracle_rows(pseudo, st) or self.oracle_window(pseudo, st)
+            return ["after set_text (step %d of the same widget, canvases alive): %s" % (len(case["steps"]) - 1, m_)
+                    for m_ in msgs]
+        if k == "frame" and st is not None:
+            return self.oracle_frame(case, res, st)
         if k == "clip" and st is not None:
             return self.oracle_clip(case, res, st)
         if k == "maps" and st is not None:
@@ -1335,6 +1590,49 @@ class C17(core.Check):
                         (x == w - 1 and neg + w < len(virt) and virt[neg + w][1] == ci))
                     return ["window: row %d column %d%s carries attribute %r, the character there has %r"
                             % (y, x, (" (the visible half of the double-width character %d)" % ci) if half else "", g, e)]
+        return []
+
+    def frame_pen(self, case, tag):
+        """The pen the palette specifies for an attribute name (None / unregistered: default), from the entry's
+        strings: documented basic colour names or 'hN', and the settings."""
+        ent = None
+        for nm, fg, bg in case["pal"]:
+            if nm == tag:
+                ent = (fg, bg)
+        if tag is None or ent is None:
+            return list(RESET_PEN)
+
+        def col(desc):
+            if desc in ("", "default"):
+                return [0]
+            if desc in BASIC:
+                return [1, BASIC.index(desc)]
+            return [1, int(desc[1:])]
+        parts = [x.strip() for x in ent[0].split(",")]
+        return [col(parts[0]), col(ent[1]), int("bold" in parts), int("italics" in parts), int("underline" in parts),
+                int("blink" in parts), int("standout" in parts), int("strikethrough" in parts)]
+
+    def oracle_frame(self, case, res, st):
+        """What the raw display wrote, read by a terminal: every cell shows the character of the frame with the
+        foreground, background and style of ITS attribute's palette entry.  On a blank cell only what is visible
+        on a blank is compared (background, underline, standout, strikethrough)."""
+        if res.get("problems"):
+            return []                # the terminal model did not understand the output: not judged
+        term = st["term"]
+        want = self.frame_expect(case)
+        labels = ["foreground", "background", "bold", "italics", "underline", "blink", "standout", "strikethrough"]
+        for y, (wrow, grow) in enumerate(zip(want, term.grid)):
+            for x, ((ch, tag), cell) in enumerate(zip(wrow, grow)):
+                gch, gpen, _erased = cell
+                if gch != ch:
+                    return []        # not the frame's character in that cell: the painting property's business
+                wpen = perceived(self.frame_pen(case, tag), case["bib"], False)
+                gpen = perceived(gpen, case["bib"], False)
+                idxs = (1, 4, 6, 7) if ch == " " else range(8)
+                for i in idxs:
+                    if gpen[i] != wpen[i]:
+                        return ["frame: cell (%d,%d) %r is drawn with %s %r, its attribute %r specifies %r"
+                                % (x, y, ch, labels[i], gpen[i], tag, wpen[i])]
         return []
 
     def oracle_clip(self, case, res, st):
@@ -1590,6 +1888,10 @@ class C17(core.Check):
             return any(a is not None for a, _ in res["ok"][2])
         if k in ("text", "layout"):
             return any(a is not None for row in res["rows"] for a, _ in row)
+        if k == "retag":
+            return any(a is not None for row in res["rows"] for a, _ in row)
+        if k == "frame":
+            return any(c[1] != [0] or c[2] != [0] or any(c[3:9]) for row in res["grid"] for c in row)
         if k == "clip":
             return any(a is not None for rows in res["clips"] for r in rows for a, _ in r)
         if k == "maps":
@@ -1609,6 +1911,15 @@ class C17(core.Check):
         inc("kind:" + case["kind"])
         if "err" in res:
             inc("err:" + case["kind"] + ":" + str(res["err"]))
+        if case["kind"] == "frame" and "grid" in res:
+            if res["problems"]:
+                inc("frame:terminal-model-gave-up")
+            last = case["lines"][-1]
+            fl = flatten(last)
+            if fl and len(fl[1]) >= 2 and fl[1][-1] != fl[1][-2]:
+                inc("frame:attribute-boundary-before-the-corner-cell")
+        if case["kind"] == "retag":
+            inc("retag:wrapped=%d" % case["wrapped"])
         if case["kind"] == "clip":
             inc("clip-via:" + case["via"])
             st = self._stash
@@ -1766,6 +2077,73 @@ class C17(core.Check):
                 else:
                     attr.append([self.rand_attr(rng), rng.choice([1, 5])])
         return {"kind": "layout", "text": codes, "isb": isb, "attr": attr, "ls": ls, "w": w, "enc": enc}
+
+    def retag_markup(self, rng, codes):
+        """Markup over exactly these characters with a fresh random tag structure."""
+        pieces, i = [], 0
+        while i < len(codes):
+            n = rng.choice([1, 1, 2, 3, len(codes)])
+            chunk = ["s", False, codes[i:i + n]]
+            i += n
+            r = rng.random()
+            if r < 0.25:
+                pieces.append(chunk)
+            elif r < 0.8:
+                pieces.append(["t", self.rand_attr(rng, 0.1), chunk])
+            else:
+                pieces.append(["t", self.rand_attr(rng, 0.1), ["t", self.rand_attr(rng, 0.3), chunk]])
+        m = ["l", pieces]
+        if rng.random() < 0.3:
+            m = ["t", self.rand_attr(rng, 0.1), m]
+        return m
+
+    def gen_retag(self, rng):
+        alpha = [97, 98, 99, 32, 32, 0x4E16, 0xE9, 10]
+        codes = [rng.choice(alpha) for _ in range(rng.choice([1, 2, 3, 5, 8]))]
+        steps = []
+        for _ in range(rng.choice([2, 2, 3, 4])):
+            if steps and rng.random() < 0.15:       # sometimes the characters change too
+                codes = codes[:-1] + [rng.choice(alpha)]
+            steps.append(self.retag_markup(rng, list(codes)))
+        return {"kind": "retag", "steps": steps, "w": rng.choice([2, 3, 5, 8]), "align": rng.choice(["left", "center", "right"]),
+                "wrap": rng.choice(["any", "space", "clip", "ellipsis"]), "enc": "utf-8", "wrapped": rng.choice([0, 0, 1, 2])}
+
+    def gen_frame(self, rng):
+        """A whole screen of attribute-tagged rows through draw_screen: rows filled to the right edge (the bottom
+        right cell trick), rows ending in blanks (erase to end of line), attribute changes at every position."""
+        cols = rng.choice([2, 3, 4, 5, 6, 8])
+        nrows = rng.choice([1, 1, 2, 3])
+        depth = rng.choice([16, 16, 256])
+        pal = []
+        for nm in range(self.FRAME_NAMES - 1):       # the last name stays unregistered
+            if depth == 16:
+                fg, bg = rng.choice(BASIC), rng.choice(BASIC[:8] + ["default"])
+            else:
+                fg, bg = "h%d" % rng.randrange(16, 256), rng.choice(["h%d" % rng.randrange(16, 256), "default"])
+            fg = ",".join([fg] + [st_ for st_ in SETTINGS if rng.random() < 0.15])
+            pal.append([nm, fg, bg])
+        alpha = [97, 98, 99, 120, 0x4E16, 0x754C, 0xE9]
+        lines = []
+        for _ in range(nrows):
+            fill = cols if rng.random() < 0.7 else rng.randrange(0, cols + 1)
+            pieces, used = [], 0
+            while used < fill:
+                tag = rng.choice([None] + list(range(self.FRAME_NAMES)))
+                codes = []
+                for _ in range(rng.choice([1, 1, 2, 3])):
+                    c = rng.choice(alpha + ([32] if used + 1 < fill else []))
+                    w = FrameTerm.width(chr(c))
+                    if used + w > fill:
+                        c, w = 97, 1
+                        if used + w > fill:
+                            break
+                    codes.append(c)
+                    used += w
+                if codes:
+                    pieces.append(["t", tag, ["s", False, codes]])
+            lines.append(["l", pieces] if pieces else ["s", False, []])
+        return {"kind": "frame", "cols": cols, "lines": lines, "pal": pal, "depth": depth,
+                "bib": rng.random() < 0.3, "bce": rng.random() < 0.7}
 
     def gen_clip(self, rng):
         """Text rich in double-width characters with an attribute boundary at (almost) every character,
@@ -1961,6 +2339,10 @@ class C17(core.Check):
             yield self.gen_layout(rng, False)
         for _ in range(8000 if big else 700):
             yield self.gen_layout(rng, True)
+        for _ in range(15000 if big else 1500):
+            yield self.gen_retag(rng)
+        for _ in range(25000 if big else 2500):
+            yield self.gen_frame(rng)
         yield from self.small_clips()
         for _ in range(40000 if big else 3000):
             yield self.gen_clip(rng)
@@ -1979,7 +2361,11 @@ class C17(core.Check):
     def search_cases(self, rng, tier):
         while True:
             r = rng.random()
-            if r < 0.15:
+            if r < 0.05:
+                yield self.gen_retag(rng)
+            elif r < 0.1:
+                yield self.gen_frame(rng)
+            elif r < 0.15:
                 yield self.gen_clip(rng)
             elif r < 0.3:
                 yield self.gen_text(rng)
@@ -2012,6 +2398,33 @@ class C17(core.Check):
                     c = dict(case)
                     c["align"] = "left"
                     yield c
+        elif k == "retag":
+            if len(case["steps"]) > 2:
+                for i in range(len(case["steps"]) - 1):
+                    c = dict(case)
+                    c["steps"] = case["steps"][:i] + case["steps"][i + 1:]
+                    yield c
+            if case["wrapped"]:
+                c = dict(case)
+                c["wrapped"] = 0
+                yield c
+        elif k == "frame":
+            for i in range(len(case["lines"]) - 1):
+                c = dict(case)
+                c["lines"] = case["lines"][:i] + case["lines"][i + 1:]
+                yield c
+            for i, m in enumerate(case["lines"]):
+                for m2 in self.shrink_markup(m):
+                    fl = flatten(m2)
+                    if fl is None:
+                        continue
+                    c = dict(case)
+                    c["lines"] = case["lines"][:i] + [m2] + case["lines"][i + 1:]
+                    yield c
+            if case["bib"]:
+                c = dict(case)
+                c["bib"] = False
+                yield c
         elif k == "palette":
             for i in range(len(case["ops"])):
                 c = dict(case)
